@@ -576,12 +576,20 @@ def oracle(item, impl):
     # ---- the two ways of rendering the fully awaited view with the real code
     if ref and (isinstance(ref[0], list) or ref[0] < 0):
         return "the stream of the already complete view did not end"
-    if tree_of(dec(ref)) != exp:
+    try:
+        got_ref = tree_of(dec(ref))
+    except (ValueError, H.ScriptError) as ex:
+        return "in-order stream of the already complete view is not well-formed HTML (%s): %r" % (ex, dec(ref))
+    if got_ref != exp:
         return "in-order document differs from the resolved render (every future complete before rendering): got %r want %r" % (dec(ref), want)
     if ref2:
         if not isinstance(ref2[0], list):
             return "resolve() of the fully completed view did not finish"
-        if tree_of(dec(ref2[0])) != exp:
+        try:
+            got_ref2 = tree_of(dec(ref2[0]))
+        except (ValueError, H.ScriptError) as ex:
+            return "resolve().await.to_html() is not well-formed HTML (%s)" % ex
+        if got_ref2 != exp:
             return "resolve().await.to_html() = %r, expected %r" % (dec(ref2[0]), want)
     # ---- termination / stream discipline
     if any(e[0] == 8 for e in events):
@@ -704,6 +712,13 @@ def nested_suspends(v, in_suspense=False, in_suspend=False, out=None):
 
 
 def classify(item, impl, model):
+    try:
+        return _classify(item, impl, model)
+    except (ValueError, H.ScriptError):
+        return None
+
+
+def _classify(item, impl, model):
     case = item["case"]
     if isinstance(impl, str):
         return None
